@@ -1,7 +1,7 @@
 (* Proofs/EnumParseP.v -- facts about the enum parser model that do not depend on the surface syntax:
    C08 (results depend only on format and input), C12 (every Ok value is well-formed, for ANY input),
    C15 (classification by the items present; casts). *)
-From Nv Require Import Model.EnumOk Proofs.EnumTotalP.
+From Nv Require Import Model.EnumOk Proofs.EnumTotalP Proofs.EqHashP.
 
 Arguments s_len {F} _.
 Arguments s_head {F} _.
@@ -14,7 +14,7 @@ Fixpoint term_ok (t : term) : bool :=
   match t with
   | TName _ n => nonempty n
   | TUnit _ | TNum _ _ => true
-  | TSet _ l => negb (Nat.eqb (length l) 0) && forallb term_ok l
+  | TSet _ l => negb (Nat.eqb (length l) 0) && forallb term_ok l && nodup_eqb l   (* the HashSet invariant *)
   | TVec _ l => negb (Nat.eqb (length l) 0) && forallb term_ok l
   | TImg _ i l => (i <=? nlen l) && forallb term_ok l
   | TBox1 _ a => term_ok a
@@ -45,11 +45,29 @@ Proof.
   pose proof (fold_insert_len l [y]) as H. cbn [length] in H. lia.
 Qed.
 
+Lemma forallb_Forall_iff0 {A} (f : A -> bool) l : forallb f l = true <-> Forall (fun x => f x = true) l.
+Proof. rewrite forallb_forall, Forall_forall. reflexivity. Qed.
+
+(* well-formed parser output satisfies the representation invariant of set payloads (C06 / C07's hypothesis) *)
+Lemma term_ok_set_ok : forall t, term_ok t = true -> set_ok t = true.
+Proof.
+  induction t as [c n|c|c i|c l IH|c l IH|c i l IH|c a IH|c a b IHa IHb] using term_ind'; cbn [term_ok set_ok]; intros H; auto.
+  - apply andb_true_iff in H as [H Hnd]. apply andb_true_iff in H as [_ H]. rewrite Hnd, andb_true_r.
+    apply forallb_Forall_iff0. apply forallb_Forall_iff0 in H. clear Hnd. induction IH; inversion H; subst; constructor; auto.
+  - apply andb_true_iff in H as [_ H]. apply forallb_Forall_iff0. apply forallb_Forall_iff0 in H. induction IH; inversion H; subst; constructor; auto.
+  - apply andb_true_iff in H as [_ H]. apply forallb_Forall_iff0. apply forallb_Forall_iff0 in H. induction IH; inversion H; subst; constructor; auto.
+  - apply andb_true_iff in H as [H1 H2]. now rewrite IHa, IHb.
+Qed.
+
 Lemma mk_set_ok l : l <> [] -> forallb term_ok l = true ->
-  negb (Nat.eqb (length (mk_set l)) 0) && forallb term_ok (mk_set l) = true.
+  negb (Nat.eqb (length (mk_set l)) 0) && forallb term_ok (mk_set l) && nodup_eqb (mk_set l) = true.
 Proof.
   intros Hne Hall. destruct l as [|y l]; [congruence|].
   pose proof (mk_set_nonempty y l) as Hlen.
+  assert (Hso : forallb set_ok (y :: l) = true).
+  { apply forallb_forall. intros x Hx. rewrite forallb_forall in Hall. apply term_ok_set_ok, Hall, Hx. }
+  destruct (mk_set_spec (y :: l) Hso) as (Hnd & _ & _).
+  rewrite Hnd, andb_true_r.
   apply andb_true_iff. split.
   - destruct (length (mk_set (y :: l))); [lia | reflexivity].
   - apply forallb_forall. intros x Hx. unfold mk_set in Hx. apply fold_insert_In in Hx as [[]|Hx].
@@ -609,7 +627,8 @@ Lemma term_ok_meaning : forall t : term,
   term_ok t = true ->
   match t with
   | TName _ n => n <> []
-  | TSet _ l | TVec _ l => l <> [] /\ forallb term_ok l = true
+  | TSet _ l => l <> [] /\ forallb term_ok l = true /\ nodup_eqb l = true
+  | TVec _ l => l <> [] /\ forallb term_ok l = true
   | TImg _ i l => (i <= nlen l)%N /\ forallb term_ok l = true
   | TBox1 _ a => term_ok a = true
   | TBox2 _ a b => term_ok a = true /\ term_ok b = true
@@ -618,8 +637,23 @@ Lemma term_ok_meaning : forall t : term,
 Proof.
   intros [c n|c|c i|c l|c l|c i l|c a|c a b]; cbn [term_ok]; intros H; auto.
   - destruct n; [discriminate | discriminate].
-  - apply andb_true_iff in H as [H1 H2]. split; [destruct l; [discriminate | discriminate] | exact H2].
+  - apply andb_true_iff in H as [H H3]. apply andb_true_iff in H as [H1 H2].
+    split; [destruct l; [discriminate | discriminate] | split; assumption].
   - apply andb_true_iff in H as [H1 H2]. split; [destruct l; [discriminate | discriminate] | exact H2].
   - apply andb_true_iff in H as [H1 H2]. split; [apply N.leb_le, H1 | exact H2].
   - apply andb_true_iff in H. exact H.
+Qed.
+
+Lemma parse_output_set_ok :
+  forall (F : Type) (fread : str -> option F) (fzero : F) (in01 : F -> bool) (is_alnum : N -> bool) (E : efmt)
+         (input : str) (v : narsese F) (st : pstate F),
+    parse_narsese F fread fzero in01 is_alnum E input = POk v st ->
+    set_ok (match v with NTerm t => t | NSentence s => s_term s | NTask k => s_term (fst k) end) = true.
+Proof.
+  intros F fread fzero in01 is_alnum E input v st H.
+  pose proof (parse_output_ok F fread fzero in01 is_alnum E setname_table_ok_true input v st H) as Hok.
+  apply term_ok_set_ok. destruct v as [t|s|[s b]]; cbn [narsese_ok] in Hok.
+  - exact Hok.
+  - unfold sentence_ok in Hok. apply andb_true_iff in Hok as [Hok _]. exact Hok.
+  - apply andb_true_iff in Hok as [Hok _]. unfold sentence_ok in Hok. apply andb_true_iff in Hok as [Hok _]. exact Hok.
 Qed.
